@@ -29,6 +29,7 @@ NTS == Tok("<Stmt>", "")
 IsNT(t) == t.k \in {"<List>", "<Stmt>"}
 Prods(t) == IF t.k = "<List>" THEN {<<Tok("}", "")>>, <<NTS, NTL>>}
             ELSE {<<Tok("D", n)>> : n \in Names} \cup {<<Tok("U", n)>> : n \in Names} \cup {<<Tok("{", ""), NTL>>}
+                 \cup {<<Tok("F", n), NTL>> : n \in Names}       \* for (var n = ..; n < ..; n += ..) { .. }
 FirstNT(f) == LET idx == {k \in 1..Len(f) : IsNT(f[k])} IN IF idx = {} THEN 0 ELSE CHOOSE k \in idx : \A j \in idx : k <= j
 Complete(f) == FirstNT(f) = 0
 RECURSIVE Need(_)
@@ -47,50 +48,65 @@ Spec == Init /\ [][Next]_vars
 (* ------------------------------ Ref ---------------------------------- *)
 \* scope stack: sequence of frames; a frame is a function Names -> declaring token index (0: parameter, -1: not declared here)
 NoFrame == [n \in Names |-> -1]
-Lookup(stack, n) == LET hits == {j \in 1..Len(stack) : stack[j][n] # -1} IN
-                    IF hits = {} THEN -1 ELSE stack[CHOOSE j \in hits : \A h \in hits : h <= j][n]
+Frame(kind, d) == [kind |-> kind, d |-> d]
+Lookup(stack, n) == LET hits == {j \in 1..Len(stack) : stack[j].d[n] # -1} IN
+                    IF hits = {} THEN -1 ELSE stack[CHOOSE j \in hits : \A h \in hits : h <= j].d[n]
+Pop(stack) == LET s1 == SubSeq(stack, 1, Len(stack) - 1) IN
+              IF Len(s1) > 0 /\ s1[Len(s1)].kind = "forH" /\ stack[Len(stack)].kind = "forB" THEN SubSeq(s1, 1, Len(s1) - 1) ELSE s1
 \* result: bind = sequence (per token) of the declaring token index the occurrence denotes (-2: not an occurrence,
-\* -1: unbound); shadows = set of <<declaration index, shadowed declaration index>>
+\* -1: unbound); shadows = set of <<declaration index, shadowed declaration index>>.  A `for` header declares its
+\* variable in a scope of its own that encloses the body block; the condition and the step are uses in that scope.
 RECURSIVE RefGo(_, _, _, _, _)
 RefGo(t, i, stack, bind, shadows) ==
   IF i > Len(t) THEN [bind |-> bind, shadows |-> shadows]
   ELSE LET tk == t[i] IN
-    CASE tk.k = "P" -> RefGo(t, i + 1, [stack EXCEPT ![1] = [@ EXCEPT ![tk.n] = 0]], Append(bind, -2), shadows)
-      [] tk.k = "{" -> RefGo(t, i + 1, Append(stack, NoFrame), Append(bind, -2), shadows)
-      [] tk.k = "}" -> RefGo(t, i + 1, SubSeq(stack, 1, Len(stack) - 1), Append(bind, -2), shadows)
+    CASE tk.k = "P" -> RefGo(t, i + 1, [stack EXCEPT ![1] = Frame(@.kind, [@.d EXCEPT ![tk.n] = 0])], Append(bind, -2), shadows)
+      [] tk.k = "{" -> RefGo(t, i + 1, Append(stack, Frame("blk", NoFrame)), Append(bind, -2), shadows)
+      [] tk.k = "}" -> RefGo(t, i + 1, Pop(stack), Append(bind, -2), shadows)
       [] tk.k = "D" -> LET seen == Lookup(stack, tk.n) IN
-                       RefGo(t, i + 1, [stack EXCEPT ![Len(stack)] = [@ EXCEPT ![tk.n] = i]], Append(bind, i),
+                       RefGo(t, i + 1, [stack EXCEPT ![Len(stack)] = Frame(@.kind, [@.d EXCEPT ![tk.n] = i])], Append(bind, i),
+                             IF seen # -1 THEN shadows \cup {<<i, seen>>} ELSE shadows)
+      [] tk.k = "F" -> LET seen == Lookup(stack, tk.n) IN
+                       RefGo(t, i + 1, stack \o <<Frame("forH", [NoFrame EXCEPT ![tk.n] = i]), Frame("forB", NoFrame)>>, Append(bind, i),
                              IF seen # -1 THEN shadows \cup {<<i, seen>>} ELSE shadows)
       [] tk.k = "U" -> RefGo(t, i + 1, stack, Append(bind, Lookup(stack, tk.n)), shadows)
 \* the function body is itself a block: the first frame holds the parameters, the second the body's declarations
-Ref(t) == RefGo(t, 1, <<NoFrame, NoFrame>>, <<>>, {})
+Ref(t) == RefGo(t, 1, <<Frame("blk", NoFrame), Frame("blk", NoFrame)>>, <<>>, {})
 AllBound(t) == \A i \in 1..Len(t) : t[i].k = "U" => Ref(t).bind[i] # -1
 
 (* ------------------------------ Impl --------------------------------- *)
 \* DeclarationEnvironment: global[n] = -2 (never declared), -1 (declared once: bare name), k >= 0 (last suffix handed out);
 \* scoped: stack of frames Names -> current suffix (-2: no entry in this frame, -1 does not occur: the bare name has no entry)
 NoSfx == [n \in Names |-> -2]
-CurSfx(sc, n) == LET hits == {j \in 1..Len(sc) : sc[j][n] # -2} IN
-                 IF hits = {} THEN -1 ELSE sc[CHOOSE j \in hits : \A h \in hits : h <= j][n]
+SFrame(kind, d) == [kind |-> kind, d |-> d]
+CurSfx(sc, n) == LET hits == {j \in 1..Len(sc) : sc[j].d[n] # -2} IN
+                 IF hits = {} THEN -1 ELSE sc[CHOOSE j \in hits : \A h \in hits : h <= j].d[n]
+\* for_into_while builds Block[init, While(cond, Block[body, step])]: a wrapper block around the header declaration and
+\* another around body and step; the body is a block of its own.  The closing brace leaves all of them.
+PopS(sc) == LET s1 == SubSeq(sc, 1, Len(sc) - 1) IN
+            IF sc[Len(sc)].kind = "forB" THEN SubSeq(s1, 1, Len(s1) - 2) ELSE s1
 RECURSIVE ImpGo(_, _, _, _, _)
 ImpGo(t, i, sc, glob, out) ==
   IF i > Len(t) THEN out
   ELSE LET tk == t[i] IN
     CASE tk.k = "P" -> ImpGo(t, i + 1, sc, [glob EXCEPT ![tk.n] = -1], Append(out, <<"", -2>>))
-      [] tk.k = "{" -> ImpGo(t, i + 1, Append(sc, NoSfx), glob, Append(out, <<"", -2>>))
-      [] tk.k = "}" -> ImpGo(t, i + 1, SubSeq(sc, 1, Len(sc) - 1), glob, Append(out, <<"", -2>>))
-      [] tk.k = "D" -> IF glob[tk.n] = -2
-                       THEN ImpGo(t, i + 1, sc, [glob EXCEPT ![tk.n] = -1], Append(out, <<tk.n, -1>>))
-                       ELSE LET sfx == glob[tk.n] + 1 IN
-                            ImpGo(t, i + 1, [sc EXCEPT ![Len(sc)] = [@ EXCEPT ![tk.n] = sfx]], [glob EXCEPT ![tk.n] = sfx],
-                                  Append(out, <<tk.n, sfx>>))
+      [] tk.k = "{" -> ImpGo(t, i + 1, Append(sc, SFrame("blk", NoSfx)), glob, Append(out, <<"", -2>>))
+      [] tk.k = "}" -> ImpGo(t, i + 1, PopS(sc), glob, Append(out, <<"", -2>>))
+      [] tk.k \in {"D", "F"} ->
+           LET sc1 == IF tk.k = "F" THEN Append(sc, SFrame("forW", NoSfx)) ELSE sc
+               inner == IF tk.k = "F" THEN <<SFrame("forW2", NoSfx), SFrame("forB", NoSfx)>> ELSE <<>> IN
+           IF glob[tk.n] = -2
+           THEN ImpGo(t, i + 1, sc1 \o inner, [glob EXCEPT ![tk.n] = -1], Append(out, <<tk.n, -1>>))
+           ELSE LET sfx == glob[tk.n] + 1 IN
+                ImpGo(t, i + 1, [sc1 EXCEPT ![Len(sc1)] = SFrame(@.kind, [@.d EXCEPT ![tk.n] = sfx])] \o inner, [glob EXCEPT ![tk.n] = sfx],
+                      Append(out, <<tk.n, sfx>>))
       [] tk.k = "U" -> ImpGo(t, i + 1, sc, glob, Append(out, <<tk.n, CurSfx(sc, tk.n)>>))
-Imp(t) == ImpGo(t, 1, <<NoSfx, NoSfx>>, [n \in Names |-> -2], <<>>)
+Imp(t) == ImpGo(t, 1, <<SFrame("blk", NoSfx), SFrame("blk", NoSfx)>>, [n \in Names |-> -2], <<>>)
 \* the key under which ssa_impl tracks the versions of (name, suffix)
 Digit(k) == CASE k = 0 -> "0" [] k = 1 -> "1" [] k = 2 -> "2" [] k = 3 -> "3" [] k = 4 -> "4" [] OTHER -> "9"
 SsaKey(ns) == IF ns[2] = -1 THEN ns[1] ELSE ns[1] \o (IF OrigKey THEN "_" ELSE ".") \o Digit(ns[2])
 
-Occ(t) == {i \in 1..Len(t) : t[i].k \in {"D", "U"}}
+Occ(t) == {i \in 1..Len(t) : t[i].k \in {"D", "U", "F"}}
 \* L1: the renaming is faithful (same IR name <=> same Ref declaration) and the SSA key does not merge variables
 L1Faithful == (Complete(form) /\ AllBound(form)) =>
    LET r == Ref(form)
